@@ -105,6 +105,9 @@ func (ed *EDDSA) Verify(signature hotstuff.QuorumSignature, message []byte) erro
 	if n == 0 {
 		return fmt.Errorf("eddsa: failed to verify: no participants")
 	}
+	if s.hasDuplicateSigner() {
+		return fmt.Errorf("eddsa: failed to verify: repeated signer")
+	}
 
 	results := make(chan error, n)
 	for _, sig := range s {
@@ -131,6 +134,9 @@ func (ed *EDDSA) BatchVerify(signature hotstuff.QuorumSignature, batch map[hotst
 	n := signature.Participants().Len()
 	if n == 0 {
 		return fmt.Errorf("eddsa: failed to verify batch: no participants")
+	}
+	if s.hasDuplicateSigner() {
+		return fmt.Errorf("eddsa: failed to verify batch: repeated signer")
 	}
 
 	results := make(chan error, n)
